@@ -98,6 +98,7 @@ def run(ctx):
     from fast_ticc import data_preparation as dp
     rng = np.random.default_rng(ctx.seed)
     ctx.proof_layer(allowed_axioms=R_AX, coq_deps=["Corr/RunStacking"])
+    core.note_drift(ctx, ANCHORS)
     cov = core.LineCoverage()
     tuples, hashes = [], []
     with cov:
